@@ -220,6 +220,7 @@ static void do_memzero(int gen, void* p, size_t n) {
         Task* t = tls_task; OpRec* rec = cur_rec();
         SeamEvent& e = new_event(rec, EV_MEMZERO, gen);
         e.n = n; e.p = classify(p, t, rec);
+        if (!p) { e.bad = n > 0; e.name = "null"; return; }     // a real wipe function would crash here; reported by the ledger oracle
         volatile u8* v = (volatile u8*)p;
         for (size_t i = 0; i < n; ++i) v[i] = 0;
         if (e.p.cls == PC_BLOCK && !e.stale) E.blocks[e.p.id].zeroed.push_back({e.p.off, e.p.off + n});
